@@ -27,10 +27,16 @@ def find_def(tree, qualname):
     node, cls = tree, None
     for i, p in enumerate(parts):
         found = None
+        nth = 1
+        if '#' in p:            # 'type#2': the second definition of that name in the class body (property setter)
+            p, k = p.split('#')
+            nth = int(k)
         for ch in ast.iter_child_nodes(node) if not isinstance(node, ast.Module) else node.body:
             if isinstance(ch, (ast.FunctionDef, ast.ClassDef, ast.AsyncFunctionDef)) and ch.name == p:
-                found = ch
-                break
+                nth -= 1
+                if nth == 0:
+                    found = ch
+                    break
             # look into if/try blocks at module/class level
         if found is None:
             for ch in ast.walk(node):
